@@ -79,7 +79,15 @@ def gen_lines(rng, w, cap, digs, n):
             out.append("bn_get_bit %s %d" % (hx(a), rng.choice([0, abs(a).bit_length(), max(0, abs(a).bit_length() - 1),
                                                                 rng.below(abs(a).bit_length() + 70)])))
         elif k < 87:
+            a2 = signed(rng, w, md)
+            out.append("bn_mod_dig 0 %s %x" % (hx(a2), rng.choice([0, 1, 2, 3, (1 << w) - 1, 1 << (w - 1), digit_pattern(rng, w)])))
+            out.append("bn_mod_2b %d %s %d" % (rng.below(2), hx(a2), rng.choice([0, 1, w - 1, w, w + 1, abs(a2).bit_length(), max(abs(a2).bit_length() - 1, 0),
+                                                                                    abs(a2).bit_length() + 5, rng.below(cap * w)])))
             out.append("bn_set_2b %d" % rng.choice([0, 1, w - 1, w, cap * w - 1, cap * w, rng.below(cap * w + 10)]))
+            a_ = rng.choice([0, 1, -1, rng.bits(w), rng.bits(3 * w), -rng.bits(2 * w + 5), (1 << (cap * w)) - 1, rng.bits(rng.below(cap * w) + 1)])
+            nb_ = abs(a_).bit_length()
+            out.append("bn_set_bit %s %d %d" % (hx(a_), rng.choice([0, 1, w - 1, w, max(nb_ - 1, 0), nb_, nb_ + 1, nb_ + w, nb_ + 3 * w + 1, cap * w - 1,
+                                                                     cap * w, cap * w + 1, rng.below(cap * w + 10)]), rng.below(2)))
         elif k < 93:
             op = rng.choice(LOW1)
             n_ = rng.choice([1, 2, 3, digs, rng.below(cap) + 1])
